@@ -364,7 +364,7 @@ func run(d *Data, q *gojq.Query, code *gojq.Code, w *world, input any, vars []an
 		if e, isErr := v.(error); isErr {
 			st.IsErr = true
 			st.Val = kernel.EncErr(e)
-			if w.ctx.Closed && errors.Is(e, context.Canceled) {
+			if w.ctx.Closed && e == w.ctx.Err() {
 				st.Val = "CTXERR"
 			}
 		} else {
@@ -440,6 +440,10 @@ func (p *prepared) reset(closePoll, closeTick int) {
 	p.w.ctx.CloseAt = closePoll
 	p.w.closeTick = closeTick
 	p.w.tickCap = p.d.Budget
+	// a deadline instead of a cancellation for every third instant: Next must return what ctx.Err() reports
+	if k := max(closePoll, closeTick); k%3 == 2 {
+		p.w.ctx.ErrValue = context.DeadlineExceeded
+	}
 	p.w.ctx.MaxAfterClose = 256
 	p.w.ctx.Overrun = func() { panic(abort{"overrun"}) }
 	// after the fault, a correct interpreter polls at most a handful of
